@@ -41,31 +41,16 @@ def find_visit_seq(F, type_path):
 
 
 def loop_parts(fn):
-    """(loop node, element binding id, element type, then-body) of `while let Some(x) = seq.next_element::<T>()? {..}`"""
+    """the single element loop of a visit_seq, in any of the container-exhausting shapes (hirq.consuming_loop)"""
     loops = [x for x in H.walk(fn["body"]) if x.get("k") == "loop"]
-    if len(loops) != 1 or loops[0].get("src") != "while":
+    if len(loops) != 1:
         return None
-    inner = H.strip_block(loops[0]["body"])
-    if inner.get("k") == "block":
-        inner = H.strip_block(inner.get("expr", {}))
-    if inner.get("k") != "if":
+    cl = H.consuming_loop(loops[0])
+    if cl is None:
         return None
-    c = H.strip_block(inner["cond"])
-    if c.get("k") != "letexpr" or H.pat_ctor(c["pat"]) != "core::option::Option::Some":
-        return None
-    init = H.strip_block(c["init"])
-    if init.get("k") != "try":
-        return None
-    call = H.strip_block(init["e"])
-    if call.get("callee") != NEXT:
-        return None
-    b = H.pat_bindings(c["pat"])
-    els = H.strip_block(inner.get("else", {}))
-    if els.get("k") == "block":
-        els = H.strip_block((els.get("stmts") or [{}])[0].get("e", els.get("expr", {}))) if (els.get("stmts") or "expr" in els) else els
-    if els.get("k") != "break":
-        return None
-    return {"loop": loops[0], "elem_id": b[0][1] if len(b) == 1 else None, "elem_ty": (call.get("targs") or [None, None])[1], "body": inner["then"], "next": call, "try": init}
+    b = H.pat_bindings(cl["pat"]) if cl["pat"] else []
+    body = cl["body"][0] if len(cl["body"]) == 1 else {"k": "block", "stmts": [x if x.get("k") in ("let", "semi", "expr") else {"k": "expr", "e": x} for x in cl["body"]], "sp": ""}
+    return {"loop": loops[0], "elem_id": b[0][1] if len(b) == 1 else None, "elem_ty": (cl["next"].get("targs") or [None, None])[1], "body": body, "next": cl["next"], "try": cl["tryn"]}
 
 
 def check_filter(ctx, F, cfg, type_path, out_field, elem_ty, key):
